@@ -2,7 +2,8 @@
 # Builds translate/r2c (offline, into .build/r2c) and regenerates coq/Gen/Src*.v from the tree at $EG_REPO
 # (default /repo).  Files are rewritten only when their content changes.  Non-zero exit = some configured
 # function is outside the translated subset or is gone (fail closed): the Gen file of that module is then a stub
-# that does not compile, so no equivalence proof can pass against definitions of an earlier tree.
+# that does not compile, so no equivalence proof can pass against definitions of an earlier tree.  Exit 4 = a generated
+# definition is referenced by no theorem (coverage.py).
 set -e
 HERE=$(cd "$(dirname "$0")" && pwd)
 V=$(cd "$HERE/../.." && pwd)
@@ -16,4 +17,7 @@ if ! ( cd "$HERE" && CARGO_NET_OFFLINE=true CARGO_TARGET_DIR="$T" timeout 900 ca
   done
   exit 3
 fi
-exec timeout 300 "$T/release/r2c" "$REPO" "$HERE/functions.txt" "$V/coq/Gen"
+timeout 300 "$T/release/r2c" "$REPO" "$HERE/functions.txt" "$V/coq/Gen"
+# every generated definition must be referenced by a theorem of coq/Properties/*_src*.v (or be allow-listed with a reason):
+# a definition that no theorem mentions can change with the source unnoticed (translate/r2c/coverage.py, exit 4)
+exec timeout 120 python3 "$HERE/coverage.py" "$V"
